@@ -143,7 +143,9 @@ def checkObs (full : Bool) (g : Ghost) (o : Obs) : List (Ghost × Api) × Ghost 
         let a2 := annotate (ghostPre sh o.st intr a1.2) o.seg2
         let gc := if full then ghostPost sh o.st intr o.ires a2.2 else a2.2
         let a3 := annotate gc o.seg3
-        let own := (ownEntries sh o.st).filter (fun e => ! (raced intr).contains e.2.name)
+        let own := match intr with
+          | .save _ _ => (ownEntries sh o.st).filter (fun e => ! (raced intr).contains e.2.name)
+          | _ => []     -- e.g. a `Load` inside the window replaces pending cached conditions: the flush claims nothing
         let ge := if o.res = .ok then holdFlushed own a3.2 else a3.2
         (a1.1 ++ a2.1 ++ a3.1 ++ [(ge, o.fin)], ge)
       else
